@@ -17,7 +17,8 @@ RULE = (
     "mode - options first and unchanged, ids within table size, references to defined slots, zero-delta rules, complete "
     "first statement and quoted triples, row kinds vs physical type, graph bracketing, namespace rows only with version 2 - "
     "and R's decoding equals the input (sequence for statement sequences, set for rdflib containers). "
-    "Plus a Hypothesis rule-based state machine over the public Stream API (enroll / triple / quad / graph with 0..3 triples / "
+    "Plus a sweep of frame lengths across the varint boundaries of the length prefix (frames of ~100..170, ~16290..16560 and "
+    "~2^21 bytes). Plus a Hypothesis rule-based state machine over the public Stream API (enroll / triple / quad / graph with 0..3 triples / "
     "namespace_declaration / manual flush of the flow, inferred, manual and bounded flows, both term encoders): after EVERY call "
     "the bytes written so far must be a valid prefix for R and decode to the events accepted so far. "
     "non-trivial = >=2 statements and the stream has an explicit non-zero entry id (post-eviction) or uses a zero form "
@@ -133,6 +134,11 @@ def body(case, acc):
 def check_case(case):
     if case.get("kind") == "api":
         return replay_api_history(case)
+    if case.get("literal_len") is not None and case.get("statements") is None:
+        n = case["literal_len"]
+        case = dict(case, statements=[[["iri", "http://ex.org/s"], ["iri", "http://ex.org/p"], ["lit", "L" * n, None, None]],
+                                      [["iri", "http://ex.org/s"], ["iri", "http://ex.org/p"], ["lit", "tail", None, None]]])
+        return body(case, None)
     if "big_index" in case:
         from props import c01
 
@@ -144,6 +150,24 @@ def run_shard(spec) -> Acc:
     acc = Acc()
     if spec.get("part") == "api":
         machine_shard(spec, acc)
+        return acc
+    if spec.get("part") == "lengths":
+        # frames whose serialized length sweeps across the varint boundaries of the length prefix (2^7, 2^14, 2^21)
+        known = set(spec["known"])
+        for n in spec["sizes"]:
+            case = {"integration": "generic", "entry": "stream_frames_gen", "phys": "TRIPLES", "logical": 1, "delimited": True,
+                    "frame_size": 250, "preset": [8, 4, 0], "params": {"generalized": True, "rdf_star": True, "stream_name": ""},
+                    "statements": [[["iri", "http://ex.org/s"], ["iri", "http://ex.org/p"], ["lit", "L" * n, None, None]],
+                                   [["iri", "http://ex.org/s"], ["iri", "http://ex.org/p"], ["lit", "tail", None, None]]],
+                    "reader": "flat", "literal_len": n}
+            v = body(case, None)
+            acc.evaluations += 1
+            acc.counters["frame_length_sweep_cases"] += 1
+            acc.nontrivial.add("len%d" % n)
+            if v is not None and v.signature not in known:
+                v.case = {k: (val if k != "statements" else None) for k, val in case.items()}
+                acc.violations.append(v.to_json())
+                break
         return acc
     if spec.get("part") == "big":
         from props import c01
@@ -165,7 +189,10 @@ def run_shard(spec) -> Acc:
 
 def plan(tier, seed):
     n = 400 if tier == "quick" else 6000
-    specs = [{"shard": i, "n": n} for i in range(12)] + [{"part": "big", "shard": 400}]
+    specs = [{"shard": i, "n": n} for i in range(11)] + [{"part": "big", "shard": 400}]
+    # literal lengths chosen so that the single frame is 100..160 and 16290..16560 bytes long, plus a few around 2^21
+    sizes = list(range(40, 110)) + list(range(16230, 16500)) + ([2097000, 2097090, 2097100, 2097110, 2097200] if tier != "quick" else [2097100])
+    specs += [{"part": "lengths", "shard": 500 + i, "sizes": sizes[i::2]} for i in range(2)]
     specs += [{"part": "api", "shard": 300 + i, "n": 120 if tier == "quick" else 3000, "steps": 12 if tier == "quick" else 30}
               for i in range(3)]
     return specs
